@@ -63,14 +63,36 @@ CodeVerifies(cls, scope, keyok) == keyok /\ ~CodeBinds(cls, scope)
 VARIABLES case, verdict, seenCovered, seenUncovered
 mvars == <<case, verdict>>
 
-MInit == /\ case \in [cls : Classes, scope : Scopes, keyok : BOOLEAN]
+\* A bundle carries one or two security operations (two targets of one security block, or two security
+\* blocks).  The bundle is delivered only if every operation verifies: what one operation finds must not be
+\* lost by the next one ("last_result_wins": the verdict variable is overwritten per target), and no operation
+\* may be skipped ("skips_after_accepted": the list of security blocks is walked while accepted ones are
+\* removed from it).  The second operation ranges over two representative scopes to keep the space small.
+Scope2 == {[pri_meta |-> TRUE, tgt_meta |-> TRUE, tgt_btsd |-> FALSE, sec_meta |-> TRUE, oth_meta |-> FALSE, oth_btsd |-> FALSE],
+           [pri_meta |-> FALSE, tgt_meta |-> FALSE, tgt_btsd |-> FALSE, sec_meta |-> FALSE, oth_meta |-> FALSE, oth_btsd |-> FALSE]}
+NoOp2 == [cls |-> "none", scope |-> CHOOSE x \in Scope2 : x.pri_meta, keyok |-> TRUE]
+Cases == {[op1 |-> o1, n |-> 1, op2 |-> NoOp2, accept |-> a] :
+             o1 \in [cls : Classes, scope : Scopes, keyok : BOOLEAN], a \in BOOLEAN}
+         \cup {[op1 |-> o1, n |-> 2, op2 |-> o2, accept |-> a] :
+             o1 \in [cls : Classes, scope : Scope2, keyok : BOOLEAN],
+             o2 \in [cls : Classes, scope : Scope2, keyok : BOOLEAN], a \in BOOLEAN}
+OpOk(o) == CodeVerifies(o.cls, o.scope, o.keyok)
+CodeVerdict(c) ==
+  IF c.n = 1 THEN OpOk(c.op1)
+  ELSE IF "last_result_wins" \in Dev THEN OpOk(c.op2)
+  ELSE IF "skips_after_accepted" \in Dev /\ c.accept /\ OpOk(c.op1) THEN TRUE
+  ELSE OpOk(c.op1) /\ OpOk(c.op2)
+Must(c) == MustVerify(c.op1.cls, c.op1.scope, c.op1.keyok)
+           /\ (c.n = 2 => MustVerify(c.op2.cls, c.op2.scope, c.op2.keyok))
+
+MInit == /\ case \in Cases
          /\ verdict = "pending"
          /\ tid = 0 /\ l = 0 /\ kfUsed = {} /\ seenCovered = {} /\ seenUncovered = {}
 MNext == /\ verdict = "pending"
-         /\ verdict' = IF CodeVerifies(case.cls, case.scope, case.keyok) THEN "ok" ELSE "fail"
+         /\ verdict' = IF CodeVerdict(case) THEN "ok" ELSE "fail"
          /\ UNCHANGED <<case, tid, l, kfUsed, seenCovered, seenUncovered>>
 MSpec == MInit /\ [][MNext]_<<case, verdict, tid, l, kfUsed, seenCovered, seenUncovered>>
-VerifyIffUnaltered == verdict # "pending" => ((verdict = "ok") <=> MustVerify(case.cls, case.scope, case.keyok))
+VerifyIffUnaltered == verdict # "pending" => ((verdict = "ok") <=> Must(case))
 
 (* ---------------- trace mode: recorded cases of the real code ---------------- *)
 Traces == JsonDeserialize(IOEnv.TRACE_FILE)
